@@ -19,7 +19,6 @@ package openapi3
 //@   modifies nothing
 //@   defines result == refName(doc, ptr(ref))
 
-
 //@ func (*T).addSchemaToSpec
 //@   requires doc != nil
 //@   modifies *
